@@ -564,12 +564,12 @@ def run(ctx):
     ctx.assume("64-bit xxh3 digests do not collide (probabilistic; outside static reach)")
     ctx.assume("functools.lru_cache keys on all positional and keyword arguments by __hash__/__eq__")
     ctx.assume("all node arrays of one process share one (samples x grid) shape (the statement fixes the grid shape per process)")
-    rule_K1(ctx)
-    rule_K2(ctx)
-    rule_K3(ctx)
-    rule_K4(ctx)
-    rule_K5(ctx)
-    rule_K6(ctx)
+    ctx.soft(rule_K1)
+    ctx.soft(rule_K2)
+    ctx.soft(rule_K3)
+    ctx.soft(rule_K4)
+    ctx.soft(rule_K5)
+    ctx.soft(rule_K6)
 
 
 _UU = "phyclone/utils/utils.py"
